@@ -68,6 +68,28 @@ func suiteTransport(t *testing.T, cfg cfgT) {
 		// entries of one batch that walk the SAME subject sets (per-entry state must not be shared)
 		motifT, motifQ := egMotif(hr, nss)
 		ee.insert(t, motifT)
+		// a depth ladder: one tuple whose answer changes with max-depth (l1 -> l2 -> l3 -> user); every transport must hand
+		// the request depth to the engine, not drop or replace it
+		var ladderQ *ketoapi.RelationTuple
+		for _, ns := range nss[1:] {
+			for _, rel := range ns.Relations {
+				if rel.SubjectSetRewrite == nil && ladderQ == nil {
+					mk := func(o string, sid *string, ss *ketoapi.SubjectSet) *ketoapi.RelationTuple {
+						return &ketoapi.RelationTuple{Namespace: ns.Name, Object: o, Relation: rel.Name, SubjectID: sid, SubjectSet: ss}
+					}
+					u := egUsers[0]
+					for _, x := range []string{"l1", "l2", "l3"} {
+						ee.pool.add(x)
+					}
+					ee.insert(t, []*ketoapi.RelationTuple{
+						mk("l1", nil, &ketoapi.SubjectSet{Namespace: ns.Name, Object: "l2", Relation: rel.Name}),
+						mk("l2", nil, &ketoapi.SubjectSet{Namespace: ns.Name, Object: "l3", Relation: rel.Name}),
+						mk("l3", &u, nil)})
+					ladderQ = mk("l1", &u, nil)
+				}
+			}
+		}
+		ladderDepths := []int{1, 2, 3, 4, 0}
 		ee.table(out)
 		mkq := func() *ketoapi.RelationTuple {
 			q := egQuery(hr, nss)
@@ -101,6 +123,9 @@ func suiteTransport(t *testing.T, cfg cfgT) {
 		for i := 0; i < 20 && cases < cfg.n; i++ {
 			q := mkq()
 			depth := []int{0, 0, 0, 3, -2, 1000}[hr.intn(6)]
+			if ladderQ != nil && i < len(ladderDepths) {
+				q, depth = ladderQ, ladderDepths[i]
+			}
 			E := ee.engineObs(q, depth)
 			var obs []string
 			dq := fmt.Sprintf("max-depth=%d", depth)
@@ -137,6 +162,11 @@ func suiteTransport(t *testing.T, cfg cfgT) {
 			n := []int{0, 1, 2, 5, 9, 10}[hr.intn(6)]
 			depth := []int{0, 0, 4}[hr.intn(3)]
 			var qs []*ketoapi.RelationTuple
+			if bi == 1 && ladderQ != nil { // the batch depth applies to every entry
+				depth = 1 + hr.intn(3)
+				qs = append(qs, ladderQ, ladderQ)
+				n = 2 + hr.intn(4)
+			}
 			if bi == 0 && len(motifQ) > 0 {
 				n = 6 + hr.intn(4)
 				for i := 0; i < n; i++ {
